@@ -643,6 +643,14 @@ class CallMixin:
             return r[0][1]
         raise Unsupported(node, f"key function {key!r}")
 
+    def apply_key_nocheck(self, node, st, key, item):
+        old = self.safety
+        self.safety = False
+        try:
+            return self.apply_key(node, st, key, item)
+        finally:
+            self.safety = old
+
     def sorted_list(self, node, st, v: Val, key, reverse: bool) -> Val:
         """Library contract of sorted()/list.sort(): a stable permutation ordered by key."""
         v = self.named(st, v)
@@ -659,8 +667,15 @@ class CallMixin:
             patterns=[p(i)] + ri[:1]))
         st.assume(z3.ForAll([i], z3.Implies(z3.And(0 <= i, i < n), z3.And(
             0 <= q(i), q(i) < n, p(q(i)) == i)), patterns=[q(i)] + vi[:1]))
-        ki = self.apply_key(node, st, key, list_get(res, i))
-        kj = self.apply_key(node, st, key, list_get(res, j))
+        self.push_binder([i, j], z3.And(0 <= i, i < n, 0 <= j, j < n))
+        try:
+            # key(x) is evaluated for every element: its safety obligations are quantified over the index
+            ki = self.apply_key(node, st, key, list_get(v, i))
+            kj = self.apply_key(node, st, key, list_get(v, j))
+        finally:
+            self.pop_binder()
+        ki = self.apply_key_nocheck(node, st, key, list_get(res, i))
+        kj = self.apply_key_nocheck(node, st, key, list_get(res, j))
         le = self.less(kj, ki, False, node) if reverse else self.less(ki, kj, False, node)
         rj = z3.Select(res.t[1], j)
         st.assume(z3.ForAll([i, j], z3.Implies(z3.And(0 <= i, i < j, j < n), le),
@@ -682,9 +697,13 @@ class CallMixin:
             self.raised.append(Outcome("raise", s_empty, ExcVal("ValueError")))
         s = st.copy().assume(n > 0)
         if self.feasible(s):
-            kj = self.apply_key(node, s, key, list_get(v, j))
-            ki = self.apply_key(node, s, key, list_get(v, i))
             s.assume(z3.And(0 <= j, j < n))
+            self.push_binder([i], z3.And(0 <= i, i < n))
+            try:
+                ki = self.apply_key(node, s, key, list_get(v, i))
+            finally:
+                self.pop_binder()
+            kj = self.apply_key_nocheck(node, s, key, list_get(v, j))
             ge = self.less(ki, kj, False, node) if is_max else self.less(kj, ki, False, node)
             gt = self.less(ki, kj, True, node) if is_max else self.less(kj, ki, True, node)
             s.assume(z3.ForAll([i], z3.Implies(z3.And(0 <= i, i < n), ge)))
@@ -761,6 +780,11 @@ class CallMixin:
     def value_method(self, node, st, recv: Val, name, args, kw):
         s = recv.sort
         if s == STR:
+            h = getattr(self.world, "str_method_hook", None)
+            if h:
+                r = h(self, st, recv, name, args)
+                if r is not None:
+                    return [(st, r)]
             if name in ("startswith", "endswith"):
                 a = args[0]
                 pats = a.items if isinstance(a, PyTuple) else (a,)
